@@ -57,6 +57,8 @@ def ev(fn, args):
         l = list(args)
         l.sort(reverse=True, key=lambda s: V.SemVer(s))      # manifest.py:739
         return SEP1.join(l)
+    if fn == 'depseq':
+        return SEP1.join(run_depseq(args[0], args[1:])[0])
     if fn == 'api':
         # through the lazy properties the callers use (manifest.py:317, 709)
         a = M.Dependency(package='pkg', version=args[0]).api
@@ -128,6 +130,39 @@ def real_get_cfgs(lines, flags):
     from mesonbuild.mesonlib import MachineChoice
     cd.compilers = {MachineChoice.HOST: {'rust': _Rustc(lines)}}
     return f(stub, MachineChoice.HOST, '')
+
+
+def r_api_call(thunk):
+    try:
+        return '=' + thunk()
+    except Exception as e:
+        return 'EXC:' + type(e).__name__
+
+
+def run_depseq(req0, ops):
+    """operations on ONE manifest.Dependency object: "a"+version reads accepts_version(version),
+    "p" reads .api, "u"+requirement calls update_version().  Returns (observations, what a fresh
+    stateless evaluation of the requirement in force answers for each read)."""
+    dep = M.Dependency(package='pkg', version=req0)
+    cur = req0
+    obs, ref = [], []
+    for op in ops:
+        if op[:1] == 'a':
+            try:
+                obs.append(T(dep.accepts_version(op[1:])))
+            except Exception as e:
+                obs.append('EXC:' + type(e).__name__)
+            try:
+                ref.append(T(V.cargo_parse.__wrapped__(cur)(op[1:])))
+            except Exception as e:
+                ref.append('EXC:' + type(e).__name__)
+        elif op[:1] == 'u':
+            dep.update_version(op[1:])
+            cur = op[1:]
+        else:
+            obs.append(r_api_call(lambda: dep.api))
+            ref.append(r_api_call(lambda: V.api(cur)))
+    return obs, ref
 
 
 def safe(fn, args):
@@ -516,6 +551,13 @@ def oracle(grp):
         if got is not exp:
             add('cfg_glue', expr=text, rustc_cfg=lines, rust_args=flags, expected=exp, got=got,
                 multivalued=multi_valued(c['ast'], opts))
+    # (8) one Dependency object under reads and update_version(): every read answers by the
+    #     requirement in force
+    for r in grp.get('depseq', []):
+        obs, ref = run_depseq(r['req'], r['ops'])
+        if obs != ref:
+            k = next(i for i, (a, b) in enumerate(zip(obs, ref)) if a != b)
+            add('dep_state', req=r['req'], ops=r['ops'], read_index=k, expected=ref, got=obs)
     return fails
 
 
